@@ -97,6 +97,16 @@ CHECKS.update({
             "DESIGN.md 4 C17"),
 })
 
+CHECKS.update({
+    "C15": ("Hypothesis generated search; metamorphic carrier-equivalence relation (every carrier vs the canonical one)",
+            "One logical case per test is rendered through 11 data/auxiliary carriers (lists with None/NaN, tuple, float32, "
+            "int64, masked arrays with NaN or finite junk under the mask, pandas Series with default/shifted index, dask, "
+            "object arrays), 12 time carriers (datetime64 of four units, datetimes, Timestamps, naive and UTC-aware "
+            "DatetimeIndex/Series, epoch seconds as list/int/float) and list/tuple spans, one at a time and mixed; flags "
+            "must equal those under float64 + datetime64[ns]. valid_range_test is swept separately with and without dtype=.",
+            "values representable in float32; dask time arrays and non-UTC zones not generated", "DESIGN.md 4 C15"),
+})
+
 NOT_APPLICABLE = {}
 
 
